@@ -452,6 +452,12 @@ var templates = []string{
 	"def f: if . < 3 then . + 1 | f else . end; %K | f?", "def f: if . < 3 then (. + 1 | f) else . end; 0 | f", "def f: if . > 2 then . else . + 1 | f end; 0 | f", "def f: if . < 3 then ., (. + 1 | f) else . end; [0 | f]", "def f: if . < 3 then (. + 1 | f), . else . end; [0 | f]", "def f: (select(. < 3) | . + 1 | f) // .; 0 | f",
 	"def f: . as $x | if $x < 3 then $x + 1 | f else $x end; 0 | f", "def f: if . < 3 then . + 1 | f | . * 2 else . end; 0 | f", "def f: def g: if . < 5 then . + 1 | g else . end; g; 0 | f", "def f: if . < 3 then . + 1 | f elif . < 6 then . + 2 | f else . end; 0 | f", "def f: try (if . < 3 then . + 1 | f else error(\"x\") end) catch .; 0 | f",
 	"def f: if . < 2 then . + 1 | f else ., 9 end; [0 | f]", "def f: 1 as $y | if . < 3 then . + $y | f else . end; 0 | f", "def f(g): if . < 3 then g | f(g) else . end; 0 | f(. + 1)", "def f($n): if . < $n then . + 1 | f($n) else . end; 0 | f(3)", "def f: label $l | if . < 3 then . + 1 | f else . end; 0 | f", "[limit(5; def f: ., (. + 1 | f); 0 | f)]", "def f: reduce (1,2) as $x (.; . + $x) | if . < 10 then f else . end; 0 | f",
+	// value parameters rebound by a self tail call (parallel assignment: a later argument reads an earlier parameter)
+	"def gcd($a; $b): if $b == 0 then $a else gcd($b; $a % $b) end; gcd(48; 18)", "def fib($a; $b; $n): if $n == 0 then $a else fib($b; $a + $b; $n - 1) end; [fib(0; 1; range(8))]", "def rev($acc; $xs): if ($xs | length) == 0 then $acc else rev([$xs[0]] + $acc; $xs[1:]) end; rev([]; [1, 2, 3, %K])",
+	"def sw($a; $b; $n): if $n == 0 then [$a, $b] else sw($b; $a; $n - 1) end; sw(1; 2; 3)", "def f($a; $b): if $a > 3 then [$a, $b] else f($a + 1; $a) end; f(0; 0)", "def f($a): if $a > 3 then $a else ., f($a + 1) end; [f(0)]", "def f($a; $b): if . == 0 then [$a, $b] else . - 1 | f($b; $a) end; 3 | f(\"x\"; \"y\")",
+	// labels in a self-recursive function: a break run by an OUTER activation after the inner one has produced its outputs
+	"def f: label $out | if .a then (.a | f), (.b, break $out, \"unreachable\") else .b end; {a: {a: {b: 3}, b: 2}, b: 1} | [f]", "def f: label $out | if .a then (.a | f), (.b | ., break $out) else .b end; {a: {a: {b: 3}, b: 2}, b: 1} | [f]", "def f: label $l | if .[0] then (.[0] | f), (.[1], break $l) else . end; [[[null, 3], 2], 1] | [f]?",
+	"def f: label $l | if . < 3 then (. + 1 | f), (., break $l, 9) else . end; [0 | f]", "def f: label $l | (if . < 2 then . + 1 | f else . end), (., break $l); [0 | f]", "def f: label $a | label $b | if . < 2 then (. + 1 | f), (break $b) else ., break $a end; [0 | f]",
 	"def f: [.[]? | . + 1] | if length > 0 and .[0] < 4 then f else . end; f?", "def w: if . < 100 then . * 2 | w else . end; [1, 3 | w]", "last(range(%K))?", "[limit(3; repeat(%A))]", "[recurse(if . < 3 then . + 1 else empty end)]?", "until(. > 5; . + 2)?", "[while(. < 5; . + 2)]?", "def f: if %A then 1 else 2 end | if . > 5 then f else . end; f?",
 }
 
